@@ -650,11 +650,17 @@ TbTick(m) == /\ Can("TbTick") /\ AtTop /\ S.mod[m].st = "running" /\ S.mod[m].tb
              /\ S' = [S EXCEPT !.idue = @ \cup {<<m, "tb">>}]
 
 \* m_mod_set_batch_timeout(): with no batch size configured only the timeout triggers (size = "infinite")
+\* With a token bucket the call pays one token for removing the old timer and one for registering the new one; it is refused as a
+\* whole, without effect, when the bucket cannot pay for both (C18: "fail with EAGAIN and have no effect")
 SetBatchTimeout(m, on) ==
-    /\ Can("SetBatchTimeout") /\ Handle(m) /\ m \in Targets /\ ~Limited(S, m)       \* (modelling bound: not combined with a token bucket)
-    /\ IF ModRefused(m) THEN Refuse(NEG)
-       ELSE IF on THEN Do([S EXCEPT !.mod[m].bt = TRUE, !.mod[m].blen = IF @ = 0 THEN 99 ELSE @, !.idue = @ \ {<<m, "bt">>}, !.ret = 0])
-       ELSE Do([S EXCEPT !.mod[m].bt = FALSE, !.idue = @ \ {<<m, "bt">>}, !.ret = 0])
+    /\ Can("SetBatchTimeout") /\ Handle(m) /\ m \in Targets
+    /\ LET need == (IF S.mod[m].bt THEN 1 ELSE 0) + (IF on THEN 1 ELSE 0)
+           pay(s) == IF Limited(S, m) THEN [s EXCEPT !.mod[m].tb.tok = @ - need] ELSE s
+       IN
+       IF ModRefused(m) THEN Refuse(NEG)
+       ELSE IF Limited(S, m) /\ S.mod[m].tb.tok < need THEN Refuse(EAGAIN)
+       ELSE IF on THEN Do(pay([S EXCEPT !.mod[m].bt = TRUE, !.mod[m].blen = IF @ = 0 THEN 99 ELSE @, !.idue = @ \ {<<m, "bt">>}, !.ret = 0]))
+       ELSE Do(pay([S EXCEPT !.mod[m].bt = FALSE, !.idue = @ \ {<<m, "bt">>}, !.ret = 0]))
 BtFire(m) == /\ Can("BtFire") /\ AtTop /\ S.mod[m].st = "running" /\ S.mod[m].bt /\ <<m, "bt">> \notin S.idue
              /\ S' = [S EXCEPT !.idue = @ \cup {<<m, "bt">>}]
 
